@@ -176,9 +176,18 @@ package collection
 //@   hyp 0 <= p && p < n && 0 < d && d < n
 //@   goal (p+d)%n != p && 0 <= (p+d)%n && (p+d)%n < n && waitf((p+d)%n, p, n) == d
 
+// the due callbacks run on their own goroutine, each exactly once, in slot order, and a panicking callback does not keep
+// the ones queued behind it from running
 //@ func (tw *TimingWheel) runTasks
-//@   trusted
+//@   property C12
 //@   modifies nothing
+//@ func (tw *TimingWheel) runTasks closure 0
+//@   property C12
+//@   flag callbacks_noheap
+//@   loop 0: invariant 0 <= idx && idx <= len(tasks) && calls(tw.execute) == old(calls(tw.execute)) + idx
+//@   call execute#0: assert arg0 == tasks[i].key && arg1 == tasks[i].value
+//@   ensures calls(tw.execute) == old(calls(tw.execute)) + len(tasks)
+//@   ensures_panic false
 
 //@ func (tw *TimingWheel) scanAndRunTasks
 //@   property C12
